@@ -27,9 +27,17 @@ const (
 	MutDropTxConsistent
 	MutCoinbase // changes who is paid: the state root no longer matches
 	NumBlockMutations
+	// blocks that contain an invalid transaction (C06), header transaction root kept consistent
+	MutTxNonceHigh = iota - 1
+	MutTxNonceLow
+	MutTxUnaffordable
+	MutTxIntrinsicLow
+	MutTxGasOverBlock
+	NumAllMutations
 )
 
-var MutNames = []string{"txhash", "unclehash", "root", "receipthash", "bloom", "gasused", "drop-tx", "alter-tx", "add-tx", "add-uncle", "drop-uncle", "alter-tx-consistent", "drop-tx-consistent", "coinbase"}
+var MutNames = []string{"txhash", "unclehash", "root", "receipthash", "bloom", "gasused", "drop-tx", "alter-tx", "add-tx", "add-uncle", "drop-uncle", "alter-tx-consistent", "drop-tx-consistent", "coinbase",
+	"tx-nonce-too-high", "tx-nonce-too-low", "tx-unaffordable", "tx-gas-below-intrinsic", "tx-gas-above-block-remainder"}
 
 // Mutate builds the corrupted copy of block id, or nil when the mutation does
 // not apply to that block.
@@ -134,6 +142,47 @@ func (u *Universe) Mutate(id, mut int, arg uint64) *types.Block {
 		uncles = uncles[:len(uncles)-1]
 	case MutCoinbase:
 		h.Coinbase[int(arg)%20] ^= 1
+	case MutTxNonceHigh, MutTxNonceLow, MutTxUnaffordable, MutTxIntrinsicLow, MutTxGasOverBlock:
+		signer := types.MakeSigner(u.Cfg, h.Number)
+		ki := int(arg) % len(u.Keys)
+		from := u.Addrs[ki]
+		// the sender's nonce after the block's own transactions
+		pst, err := u.O.StateAt(u.Blocks[u.Parent[id]].Root())
+		if err != nil {
+			return nil
+		}
+		nonce := pst.GetNonce(from)
+		for _, tx := range txs {
+			if f, _ := types.Sender(signer, tx); f == from {
+				nonce++
+			}
+		}
+		to := u.Addrs[(ki+1)%len(u.Addrs)]
+		val, gas := big.NewInt(1), uint64(21000)
+		switch mut {
+		case MutTxNonceHigh:
+			nonce += 3
+		case MutTxNonceLow:
+			if nonce == 0 {
+				return nil
+			}
+			nonce--
+		case MutTxUnaffordable:
+			val, _ = new(big.Int).SetString("2000000000000000000000000000", 10)
+		case MutTxIntrinsicLow:
+			gas = 20999
+		case MutTxGasOverBlock:
+			if len(txs) == 0 {
+				return nil
+			}
+			gas = h.GasLimit
+		}
+		st, err := types.SignTx(types.NewTransaction(nonce, to, val, gas, big.NewInt(1_000_000_000), nil), signer, u.Keys[ki])
+		if err != nil {
+			return nil
+		}
+		txs = append(txs, st)
+		h.TxHash = types.DeriveSha(txs)
 	default:
 		return nil
 	}
